@@ -211,6 +211,10 @@ func TsigGenerateWithProvider(m *Msg, provider TsigProvider, requestMAC string, 
 		t.MACSize = uint16(len(t.MAC) / 2) // Size is half!
 	}
 
+	// tsigBuffer put the original ID into mbuf for the digest (buf may share its
+	// memory); what is sent keeps the message's own ID.
+	binary.BigEndian.PutUint16(mbuf[0:2], m.Id)
+
 	tbuf := make([]byte, Len(t))
 	off, err := PackRR(t, tbuf, 0, nil, false)
 	if err != nil {
